@@ -287,6 +287,69 @@ fn prologue(tys: &[&dyn TyObj]) {
     }
 }
 
+type Job = Box<dyn FnOnce() -> (usize, Option<TaskResult>) + Send>;
+
+/// Three long-lived threads per exploring worker (creating threads for every run serialises all workers on the
+/// process's memory-map lock). They idle on a channel; exactly one of them runs at any time during a run.
+struct TaskPool {
+    tx: Vec<std::sync::mpsc::Sender<Job>>,
+    rx: std::sync::mpsc::Receiver<(usize, Option<TaskResult>)>,
+}
+
+thread_local! {
+    static POOL: std::cell::RefCell<Option<TaskPool>> = const { std::cell::RefCell::new(None) };
+}
+
+const MAX_TASKS: usize = 4;
+
+fn make_pool() -> TaskPool {
+    let (rtx, rrx) = std::sync::mpsc::channel::<(usize, Option<TaskResult>)>();
+    let mut tx = Vec::new();
+    for _ in 0..MAX_TASKS {
+        let (jtx, jrx) = std::sync::mpsc::channel::<Job>();
+        let rtx = rtx.clone();
+        std::thread::spawn(move || {
+            while let Ok(job) = jrx.recv() {
+                let r = job();
+                if rtx.send(r).is_err() {
+                    break;
+                }
+            }
+        });
+        tx.push(jtx);
+    }
+    TaskPool { tx, rx: rrx }
+}
+
+fn run_interleaved(spec: &RunSpec, gate: &Arc<Gate>) -> Vec<Option<TaskResult>> {
+    let n = spec.tasks.len().min(MAX_TASKS);
+    let shared = Arc::new(spec.clone());
+    POOL.with(|p| {
+        let mut p = p.borrow_mut();
+        let pool = p.get_or_insert_with(make_pool);
+        for ti in 0..n {
+            let g = gate.clone();
+            let sp = shared.clone();
+            let job: Job = Box::new(move || {
+                let r = std::panic::catch_unwind(std::panic::AssertUnwindSafe(|| {
+                    let _fin = Finisher(&g, ti);
+                    g.start(ti);
+                    let ty = by_name(crate::types::global_menu(), &sp.tasks[ti].ty).expect("task type");
+                    exec_task(&sp, ti, &sp.tasks[ti], ty, Some(g.clone()), false)
+                }));
+                (ti, r.ok())
+            });
+            pool.tx[ti].send(job).expect("task thread");
+        }
+        let mut out: Vec<Option<TaskResult>> = (0..spec.tasks.len()).map(|_| None).collect();
+        for _ in 0..n {
+            let (ti, r) = pool.rx.recv().expect("task thread result");
+            out[ti] = r;
+        }
+        out
+    })
+}
+
 pub fn run_tasks(spec: &RunSpec, want_log: bool) -> RunResult {
     let menu = crate::types::global_menu();
     let n = spec.tasks.len();
@@ -301,27 +364,10 @@ pub fn run_tasks(spec: &RunSpec, want_log: bool) -> RunResult {
     // (A) one after the other
     prologue(&tys);
     let a: Vec<TaskResult> = (0..n).map(|ti| exec_task(spec, ti, &spec.tasks[ti], tys[ti], None, want_log)).collect();
-    // (B) interleaved under the schedule
+    // (B) interleaved under the schedule, on this worker's persistent task threads
     prologue(&tys);
     let gate = Arc::new(Gate::new(n, spec.schedule.clone()));
-    let mut b: Vec<Option<TaskResult>> = (0..n).map(|_| None).collect();
-    std::thread::scope(|s| {
-        let handles: Vec<_> = (0..n)
-            .map(|ti| {
-                let g = gate.clone();
-                let ty = tys[ti];
-                let task = &spec.tasks[ti];
-                s.spawn(move || {
-                    let _fin = Finisher(&g, ti);
-                    g.start(ti);
-                    exec_task(spec, ti, task, ty, Some(g.clone()), false)
-                })
-            })
-            .collect();
-        for (ti, h) in handles.into_iter().enumerate() {
-            b[ti] = h.join().ok();
-        }
-    });
+    let b: Vec<Option<TaskResult>> = run_interleaved(spec, &gate);
     // (C) one after the other, last task first
     let mut c: Vec<Option<TaskResult>> = (0..n).map(|_| None).collect();
     prologue(&tys);
